@@ -699,6 +699,25 @@ pub fn gen_rect_any(rng: &mut Rng, lw: u32, lh: u32, max_visible: u64) -> Rect {
             }
             3 => Rect { x: i32::MIN, y: i32::MIN, w: 1 + rng.below(100) as u32, h: 1 + rng.below(100) as u32 },
             4 => Rect { x: i32::MAX - 50, y: rng.range(-5, lhi) as i32, w: 1 + rng.below(50) as u32, h: 1 + rng.below(50) as u32 },
+            5 if rng.coin() => {
+                // the part hanging over the right (or bottom) edge is 65536*n (+-1) long: a width
+                // compared after a truncating cast makes the clipped rectangle look complete
+                let n = 1 + rng.below(3) as i64;
+                let d = rng.range(-1, 1);
+                if rng.coin() {
+                    let x = rng.below(lw as u64) as i64;
+                    let w = (lwi - x) + 65536 * n + d;
+                    let y = rng.range(-2, (lhi - 2).max(0));
+                    let h = 2 + rng.below(5) as i64;
+                    Rect { x: x as i32, y: y as i32, w: w as u32, h: h as u32 }
+                } else {
+                    let y = rng.below(lh as u64) as i64;
+                    let h = (lhi - y) + 65536 * n + d;
+                    let x = rng.range(-2, (lwi - 2).max(0));
+                    let w = 2 + rng.below(5) as i64;
+                    Rect { x: x as i32, y: y as i32, w: w as u32, h: h as u32 }
+                }
+            }
             5 => Rect { x: 65536 + rng.range(-2, lwi) as i32, y: rng.range(0, lhi - 1) as i32, w: 1 + rng.below(20) as u32, h: 1 + rng.below(20) as u32 },
             _ => {
                 let (x, w) = span(rng, lwi);
